@@ -32,6 +32,8 @@ const POOL: &[&str] = &[
     // container that holds both kinds)
     "adv$tag=b",
     "adv$tag=c",
+    // (no tagged `$redirect=` rule: src/blocker.rs documents "`tag` + `redirect` is unsupported
+    // for now" and the property's category list does not name it; such rules are never active)
 ];
 const TAGS: [&str; 3] = ["a", "b", "c"];
 
